@@ -41,6 +41,28 @@ theorem preview_pure_remove (cwd : String) (sels : List String) (inv : Inv) :
   · rfl
   · simp [applyRemovals]
 
+/-- **C33, pure (everything else in the index directory)**: without `-f` the set of entries that are not shards —
+    temporary files of a killed or concurrent build, lock file, anything — is exactly what it was; with `-f` the only
+    entry that can appear is the lock file, and none disappears. For every such set. -/
+theorem preview_pure_others (o : Others) :
+    othersAfter false o = o ∧ othersUnchanged o (othersAfter false o) = true ∧
+    (∀ x, x ∈ othersAfter true o ↔ x ∈ o ∨ x = lockName) ∧ forceOthersOk o (othersAfter true o) = true := by
+  have hmem : ∀ x, x ∈ othersAfter true o ↔ x ∈ o ∨ x = lockName := by
+    intro x
+    unfold othersAfter takeLock
+    by_cases h : lockName ∈ o
+    · simp only [↓reduceIte, h]
+      constructor
+      · exact Or.inl
+      · rintro (hx | rfl)
+        · exact hx
+        · exact h
+    · simp [h]
+  refine ⟨rfl, by simp [othersAfter, othersUnchanged, sameSet], hmem, ?_⟩
+  unfold forceOthersOk
+  simp only [Bool.and_eq_true, List.all_eq_true, decide_eq_true_eq, Bool.or_eq_true]
+  exact ⟨fun x hx => (hmem x).mpr (Or.inl hx), fun x hx => (hmem x).mp hx⟩
+
 /-! ## faithful (remove) -/
 
 /-- **C33, faithful (remove)**: for every selector list and inventory the preview fails exactly when the forced run
